@@ -107,7 +107,9 @@ impl<'c> SetCookie<'c> {
                 },
                 Some(1) => {
                     r.consume("=").ok_or_else(|| format!("Invalid `Max-Age`: No `=` found"))?;
-                    let value = r.read_until(b"; ").iter().fold(0, |secs, d| 10*secs + (*d - b'0') as u64);
+                    let value = std::str::from_utf8(r.read_until(b"; ")).ok()
+                        .and_then(|digits| digits.parse::<u64>().ok())
+                        .ok_or_else(|| format!("Invalid `Max-Age`: not a number of seconds"))?;
                     this.MaxAge = Some(value)
                 }
                 Some(2) => {
